@@ -5,9 +5,13 @@
   boundary unless it ends at a last vertex strictly inside.
 
   The segment-level theory (namespace `LE`, up to `segLoop_spec`) is a copy, under new names, of the
-  proved C07 development (OrbProofs/C07Seg.lean, C07SegLoop.lean, parts of C07Line.lean).
+  proved C07 development (OrbProofs/C07Seg.lean, C07SegLoop.lean, parts of C07Line.lean).  It reasons about
+  the inner loop without the rounding guards (`segLoopU`, OrbProofs/ClipLoop.lean); `lineStep_eq_U` (from
+  the C07 bridge `Clip.lineStep_eq_U`: over a field the guards of the model's loop change nothing) carries
+  the results over to the model.
 -/
 import OrbProofs.C16Tables
+import OrbProofs.C07Line
 import Mathlib.Tactic.FieldSimp
 import Mathlib.Tactic.Push
 
@@ -36,7 +40,7 @@ def LineSpec (box : Bound α) : Prop :=
 
 namespace LE
 open Generated.Params
-open Orb.Clip (bitCode intersect segLoop Seg push lineStep lineLoop line LineSt)
+open Orb.Clip (bitCode intersect segLoop segLoopU Seg push lineStep lineStepU lineLoop line LineSt)
 
 /-- the point at parameter `t` of the segment `a b` -/
 def lerp (a b : Pt α) (t : α) : Pt α := ⟨a.x + t * (b.x - a.x), a.y + t * (b.y - a.y)⟩
@@ -493,7 +497,7 @@ theorem Reg.inBox {S : Prop} {box : Bound α} {q : Pt α} (h : Reg S box q) : In
   · exact inBox_of_inOpenBox h
   · exact h.2
 
-/-- post-condition of `segLoop` started on `a b` with codes `cA cB` -/
+/-- post-condition of `segLoopU` started on `a b` with codes `cA cB` -/
 def SegPost (box : Bound α) (S : Prop) (a b : Pt α) (cA cB : Nat) : Seg α → Prop
   | .accept a' b' c => c = 0 ∧ InBox box a' ∧ InBox box b' ∧ OnSeg a b a' ∧ OnSeg a b b' ∧
       (cA = 0 → a' = a) ∧ (cB = 0 → b' = b) ∧ ∀ q, OnSeg a b q → Reg S box q → OnSeg a' b' q
@@ -503,13 +507,13 @@ def SegPost (box : Bound α) (S : Prop) (a b : Pt α) (cA cB : Nat) : Seg α →
 theorem segLoop_spec {box : Bound α} (hb : BoxOK box) (S : Prop) :
     ∀ (fuel : Nat) (a b : Pt α) (cA cB : Nat), W box cA a → W box cB b →
       (S → cA = bitCode box a ∧ cB = bitCode box b) → mu (cA ||| cB) < fuel →
-      SegPost box S a b cA cB (segLoop box fuel a b cA cB) := by
+      SegPost box S a b cA cB (segLoopU box fuel a b cA cB) := by
   intro fuel
   induction fuel with
   | zero => intro a b cA cB _ _ _ h; omega
   | succ n ih =>
     intro a b cA cB hWA hWB hS hfuel
-    rw [segLoop]
+    rw [segLoopU]
     split_ifs with h1 h2 h3
     · -- accept
       obtain ⟨hA0, hB0⟩ := bits_or_zero cA hWA.1 cB hWB.1 h1
@@ -540,7 +544,7 @@ theorem segLoop_spec {box : Bound α} (hb : BoxOK box) (S : Prop) :
       have hand : cA &&& cB = 0 := not_not.1 h2
       obtain ⟨T, hT0, hT1, hint, hmu, hdis⟩ := clipA hb hWA hWB h3 hand
       rw [hint]
-      show SegPost box S a b cA cB (segLoop box n (lerp a b T) b (bitCode box (lerp a b T)) cB)
+      show SegPost box S a b cA cB (segLoopU box n (lerp a b T) b (bitCode box (lerp a b T)) cB)
       have key := ih (lerp a b T) b (bitCode box (lerp a b T)) cB (W_bitCode hb _) hWB
         (fun s => ⟨rfl, (hS s).2⟩) (by omega)
       have hsplit : ∀ q, OnSeg a b q → InBox box q → OnSeg (lerp a b T) b q := by
@@ -550,7 +554,7 @@ theorem segLoop_spec {box : Bound α} (hb : BoxOK box) (S : Prop) :
           exact hdis t ht0 (not_le.1 hlt) hin
         have := onSeg_between a b hTt ht1
         rwa [lerp_one] at this
-      generalize segLoop box n (lerp a b T) b (bitCode box (lerp a b T)) cB = r at key ⊢
+      generalize segLoopU box n (lerp a b T) b (bitCode box (lerp a b T)) cB = r at key ⊢
       cases r with
       | accept a' b' c =>
         obtain ⟨hc, hia, hib, hoa, hob, _, hb', hcomp⟩ := key
@@ -567,7 +571,7 @@ theorem segLoop_spec {box : Bound α} (hb : BoxOK box) (S : Prop) :
         rintro rfl; apply h1; rw [hA0]; rfl
       obtain ⟨T, hT0, hT1, hint, hmu, hdisO, hdisC⟩ := clipB hb hWA hWB hB0 hand
       rw [hint]
-      show SegPost box S a b cA cB (segLoop box n a (lerp a b T) cA (bitCode box (lerp a b T)))
+      show SegPost box S a b cA cB (segLoopU box n a (lerp a b T) cA (bitCode box (lerp a b T)))
       have key := ih a (lerp a b T) cA (bitCode box (lerp a b T)) hWA (W_bitCode hb _)
         (fun s => ⟨(hS s).1, rfl⟩) (by omega)
       have hsplit : ∀ q, OnSeg a b q → Reg S box q → OnSeg a (lerp a b T) q := by
@@ -579,7 +583,7 @@ theorem segLoop_spec {box : Bound α} (hb : BoxOK box) (S : Prop) :
           · exact hdisC (hS hs).2 t (not_le.1 hlt) ht1 hreg
         have := onSeg_between a b ht0 hTt
         rwa [lerp_zero] at this
-      generalize segLoop box n a (lerp a b T) cA (bitCode box (lerp a b T)) = r at key ⊢
+      generalize segLoopU box n a (lerp a b T) cA (bitCode box (lerp a b T)) = r at key ⊢
       cases r with
       | accept a' b' c =>
         obtain ⟨hc, hia, hib, hoa, hob, ha', _, hcomp⟩ := key
@@ -594,6 +598,16 @@ theorem segLoop_spec {box : Bound α} (hb : BoxOK box) (S : Prop) :
 theorem mu_lt_eight {cA cB : Nat} (hA : cA < 16) (hB : cB < 16) : mu (cA ||| cB) < 8 :=
   lt_of_le_of_lt (bits_mu_le cA hA cB hB) (by decide)
 
+
+/-! ### the rounding guards of the real loop change nothing over an ordered field -/
+
+/-- the outer step of the model is the step over the loop without the guards (open mode); proved in the
+    C07 development (`Clip.segLoop_eq_segLoopU`: clamp branch unreachable, own-intersection arm =
+    `intersect`) -/
+theorem lineStep_eq_U {box : Bound α} (hb : BoxOK box) {st : LineSt α} {a : Pt α} (b : Pt α) (last : Bool)
+    (hcode : st.codeA = Clip.bitCodeOpen box a) :
+    lineStep box true st a b last = lineStepU box true st a b last :=
+  Clip.lineStep_eq_U (box := box) hb true b last hcode
 
 /-! ### open codes and the open box -/
 
@@ -623,17 +637,17 @@ theorem intersect_onEdge {box : Bound α} {c : Nat} {a b p : Pt α}
   unfold Clip.intersect at h
   split_ifs at h <;> (cases h; simp [OnEdge])
 
-/-- what `segLoop` does to the two ends: an end whose code is 0 is kept, an end whose code is not 0
+/-- what `segLoopU` does to the two ends: an end whose code is 0 is kept, an end whose code is not 0
     is moved by `intersect` onto an edge line -/
 theorem segLoop_ends (box : Bound α) : ∀ (fuel : Nat) (a b : Pt α) (cA cB : Nat) (a' b' : Pt α) (c : Nat),
-    segLoop box fuel a b cA cB = .accept a' b' c →
+    segLoopU box fuel a b cA cB = .accept a' b' c →
     (cA = 0 → a' = a) ∧ (cA ≠ 0 → OnEdge box a') ∧ (cB = 0 → b' = b) ∧ (cB ≠ 0 → OnEdge box b') := by
   intro fuel
   induction fuel with
-  | zero => intro a b cA cB a' b' c h; simp [segLoop] at h
+  | zero => intro a b cA cB a' b' c h; simp [segLoopU] at h
   | succ n ih =>
     intro a b cA cB a' b' c h
-    rw [segLoop] at h
+    rw [segLoopU] at h
     split_ifs at h with h1 h2 h3
     · obtain ⟨hA, hB⟩ := Nat.or_eq_zero_iff.1 h1
       cases h
@@ -666,7 +680,7 @@ theorem onBoundary_of {box : Bound α} {p : Pt α} (h1 : InBox box p) (h2 : OnEd
 /-- the specification of the inner loop in open mode, as used by the outer loop -/
 theorem segLoop_open {box : Bound α} (hb : BoxOK box) (a b : Pt α) (cA : Nat)
     (hcA : cA = Clip.bitCodeOpen box a) :
-    (match segLoop box 8 a b cA (Clip.bitCodeOpen box b) with
+    (match segLoopU box 8 a b cA (Clip.bitCodeOpen box b) with
      | .accept a' b' c => c = 0 ∧ InBox box a' ∧ InBox box b' ∧
          (cA = 0 → a' = a) ∧ (cA ≠ 0 → OnBoundary box a') ∧
          (Clip.bitCodeOpen box b = 0 → b' = b) ∧ (Clip.bitCodeOpen box b ≠ 0 → OnBoundary box b')
@@ -677,7 +691,7 @@ theorem segLoop_open {box : Bound α} (hb : BoxOK box) (a b : Pt α) (cA : Nat)
   have key := segLoop_spec hb False 8 a b cA (Clip.bitCodeOpen box b) hWA hWB
     (fun h => h.elim) (mu_lt_eight hWA.1 hWB.1)
   have ends := segLoop_ends box 8 a b cA (Clip.bitCodeOpen box b)
-  generalize segLoop box 8 a b cA (Clip.bitCodeOpen box b) = r at key ends
+  generalize segLoopU box 8 a b cA (Clip.bitCodeOpen box b) = r at key ends
   cases r with
   | accept a' b' c =>
     obtain ⟨hc, hia, hib, _, _, _, _, _⟩ := key
@@ -707,8 +721,8 @@ theorem push_open (done : List (List (Pt α))) (cur : List (Pt α)) (p : Pt α) 
 /-! ### one step of the outer loop, open mode -/
 
 theorem lineStep_eq (box : Bound α) (st : LineSt α) (a b : Pt α) (last : Bool) :
-    lineStep box true st a b last =
-      match segLoop box 8 a b st.codeA (Clip.bitCodeOpen box b) with
+    lineStepU box true st a b last =
+      match segLoopU box 8 a b st.codeA (Clip.bitCodeOpen box b) with
       | .accept a' b' codeB' =>
         if codeB' ≠ Clip.bitCodeOpen box b then
           { out := push (push st.out st.line a') st.line b',
@@ -721,14 +735,14 @@ theorem lineStep_eq (box : Bound α) (st : LineSt α) (a b : Pt α) (last : Bool
       | .stuck => { st with codeA := Clip.bitCodeOpen box b, stuck := true } := rfl
 
 theorem lineStep_reject {box : Bound α} {st : LineSt α} {a b : Pt α} (last : Bool)
-    (hr : segLoop box 8 a b st.codeA (Clip.bitCodeOpen box b) = .reject) :
-    lineStep box true st a b last = ⟨st.out, st.line, Clip.bitCodeOpen box b, st.stuck⟩ := by
+    (hr : segLoopU box 8 a b st.codeA (Clip.bitCodeOpen box b) = .reject) :
+    lineStepU box true st a b last = ⟨st.out, st.line, Clip.bitCodeOpen box b, st.stuck⟩ := by
   rw [lineStep_eq, hr]
 
 theorem lineStep_accept_out {box : Bound α} {st : LineSt α} {a b a' b' : Pt α}
-    (last : Bool) (hr : segLoop box 8 a b st.codeA (Clip.bitCodeOpen box b) = .accept a' b' 0)
+    (last : Bool) (hr : segLoopU box 8 a b st.codeA (Clip.bitCodeOpen box b) = .accept a' b' 0)
     (hE : Clip.bitCodeOpen box b ≠ 0) :
-    lineStep box true st a b last =
+    lineStepU box true st a b last =
       ⟨push (push st.out st.line a') st.line b', if last then st.line else st.line + 1,
         Clip.bitCodeOpen box b, st.stuck⟩ := by
   have hE' : (0 : Nat) ≠ Clip.bitCodeOpen box b := fun h => hE h.symm
@@ -736,17 +750,17 @@ theorem lineStep_accept_out {box : Bound α} {st : LineSt α} {a b a' b' : Pt α
   simp only [hE', ne_eq, not_false_eq_true, if_true]
 
 theorem lineStep_accept_in_last {box : Bound α} {st : LineSt α} {a b a' b' : Pt α}
-    (hr : segLoop box 8 a b st.codeA (Clip.bitCodeOpen box b) = .accept a' b' 0)
+    (hr : segLoopU box 8 a b st.codeA (Clip.bitCodeOpen box b) = .accept a' b' 0)
     (hE : Clip.bitCodeOpen box b = 0) :
-    lineStep box true st a b true =
+    lineStepU box true st a b true =
       ⟨push (push st.out st.line a') st.line b', st.line, Clip.bitCodeOpen box b, st.stuck⟩ := by
   rw [lineStep_eq, hr]
   simp only [hE, ne_eq, not_true_eq_false, if_false, if_true]
 
 theorem lineStep_accept_in {box : Bound α} {st : LineSt α} {a b a' b' : Pt α}
-    (hr : segLoop box 8 a b st.codeA (Clip.bitCodeOpen box b) = .accept a' b' 0)
+    (hr : segLoopU box 8 a b st.codeA (Clip.bitCodeOpen box b) = .accept a' b' 0)
     (hE : Clip.bitCodeOpen box b = 0) :
-    lineStep box true st a b false =
+    lineStepU box true st a b false =
       ⟨push st.out st.line a', st.line, Clip.bitCodeOpen box b, st.stuck⟩ := by
   rw [lineStep_eq, hr]
   simp only [hE, ne_eq, not_true_eq_false, if_false, Bool.false_eq_true]
@@ -764,15 +778,20 @@ theorem lineLoop_single (box : Bound α) (isOpen : Bool) (st : LineSt α) (a : P
 
 /-! ### all vertices strictly inside -/
 
-theorem segLoop_zero (box : Bound α) (a b : Pt α) : segLoop box 8 a b 0 0 = .accept a b 0 := by
-  rw [segLoop]; simp
+theorem segLoop_zero (box : Bound α) (a b : Pt α) : segLoopU box 8 a b 0 0 = .accept a b 0 := by
+  rw [segLoopU]; simp
 
 theorem lineStep_inside (box : Bound α) (out : List (List (Pt α))) (a b : Pt α)
     (hb : InOpenBox box b) (last : Bool) :
     lineStep box true ⟨out, 0, 0, false⟩ a b last =
       ⟨if last then push (push out 0 a) 0 b else push out 0 a, 0, 0, false⟩ := by
   have hE : Clip.bitCodeOpen box b = 0 := code_zero_of_inOpen hb
-  have hr : segLoop box 8 a b (LineSt.codeA ⟨out, 0, 0, false⟩) (Clip.bitCodeOpen box b) = .accept a b 0 := by
+  have hbr : segLoop box true 8 a b (LineSt.codeA ⟨out, 0, 0, false⟩) (if true then Clip.bitCodeOpen box b else bitCode box b) 0 0 =
+      segLoopU box 8 a b (LineSt.codeA ⟨out, 0, 0, false⟩) (if true then Clip.bitCodeOpen box b else bitCode box b) := by
+    show segLoop box true 8 a b 0 (Clip.bitCodeOpen box b) 0 0 = segLoopU box 8 a b 0 (Clip.bitCodeOpen box b)
+    rw [hE]; exact Clip.segLoop_eq_segLoopU_decided box true 7 a b (cA := 0) (cB := 0) 0 0 (Or.inl rfl)
+  rw [Clip.lineStep_eq_lineStepU last hbr]
+  have hr : segLoopU box 8 a b (LineSt.codeA ⟨out, 0, 0, false⟩) (Clip.bitCodeOpen box b) = .accept a b 0 := by
     rw [hE]; exact segLoop_zero box a b
   cases last
   · rw [lineStep_accept_in hr hE, hE]; rfl
@@ -820,13 +839,18 @@ theorem line_inside (box : Bound α) (inp : List (Pt α)) (h2 : 2 ≤ inp.length
 
 theorem segLoop_reject_common {box : Bound α} {cA cB k : Nat} (hA : cA < 16) (hB : cB < 16)
     (hk : Edge k) (h1 : cA &&& k ≠ 0) (h2 : cB &&& k ≠ 0) (n : Nat) (a b : Pt α) :
-    segLoop box (n + 1) a b cA cB = .reject := by
+    segLoopU box (n + 1) a b cA cB = .reject := by
   have hand : cA &&& cB ≠ 0 := bits_common' cA hA cB hB k hk.mem h1 h2
   have hor : cA ||| cB ≠ 0 := by
     intro h
     obtain ⟨h0, _⟩ := Nat.or_eq_zero_iff.1 h
     apply h1; rw [h0]; exact Nat.zero_and k
-  rw [segLoop, if_neg hor, if_pos hand]
+  rw [segLoopU, if_neg hor, if_pos hand]
+
+theorem segLoop_decided_common {box : Bound α} {cA cB k : Nat} (hA : cA < 16) (hB : cB < 16)
+    (hk : Edge k) (h1 : cA &&& k ≠ 0) (h2 : cB &&& k ≠ 0) (n : Nat) (a b : Pt α) :
+    segLoop box true (n + 1) a b cA cB 0 0 = segLoopU box (n + 1) a b cA cB :=
+  Clip.segLoop_eq_segLoopU_decided box true n a b 0 0 (Or.inr (bits_common' cA hA cB hB k hk.mem h1 h2))
 
 theorem lineLoop_outside {box : Bound α} {k : Nat} (hk : Edge k) :
     ∀ (rest : List (Pt α)) (a : Pt α) (l : Nat), (∀ v ∈ a :: rest, Clip.bitCodeOpen box v &&& k ≠ 0) →
@@ -838,7 +862,10 @@ theorem lineLoop_outside {box : Bound α} {k : Nat} (hk : Edge k) :
     intro a l h
     have hr := segLoop_reject_common (box := box) (bitCodeOpen_lt box a) (bitCodeOpen_lt box b) hk
       (h a List.mem_cons_self) (h b (List.mem_cons_of_mem _ List.mem_cons_self)) 7 a b
-    rw [lineLoop_cons_cons, lineStep_reject (st := ⟨[], l, Clip.bitCodeOpen box a, false⟩) _ hr]
+    have hbr := segLoop_decided_common (box := box) (bitCodeOpen_lt box a) (bitCodeOpen_lt box b) hk
+      (h a List.mem_cons_self) (h b (List.mem_cons_of_mem _ List.mem_cons_self)) 7 a b
+    rw [lineLoop_cons_cons, Clip.lineStep_eq_lineStepU (st := ⟨[], l, Clip.bitCodeOpen box a, false⟩) _ hbr,
+      lineStep_reject (st := ⟨[], l, Clip.bitCodeOpen box a, false⟩) _ hr]
     exact ih b l (fun v hv => h v (List.mem_cons_of_mem _ hv))
 
 theorem line_outside {box : Bound α} {k : Nat} (hk : Edge k) (inp : List (Pt α))
@@ -948,9 +975,10 @@ theorem push_start {box : Bound α} {p0 a a' : Pt α} {st : LineSt α} (hI : Inv
 theorem lineStep_inv {box : Bound α} (hb : BoxOK box) {p0 a : Pt α} (b : Pt α) {st : LineSt α}
     (hI : Inv box p0 st a) : Inv box p0 (lineStep box true st a b false) b := by
   have hcode := hI.2.1
+  rw [lineStep_eq_U hb b false hcode]
   have hst := hI.1
   have key := segLoop_open hb a b st.codeA hcode
-  generalize hr : segLoop box 8 a b st.codeA (Clip.bitCodeOpen box b) = r at key
+  generalize hr : segLoopU box 8 a b st.codeA (Clip.bitCodeOpen box b) = r at key
   cases r with
   | stuck => exact key.elim
   | reject =>
@@ -1003,9 +1031,10 @@ theorem lineStep_final {box : Bound α} (hb : BoxOK box) {p0 a : Pt α} (b : Pt 
     (lineStep box true st a b true).stuck = false ∧
       Final box p0 b (lineStep box true st a b true).out := by
   have hcode := hI.2.1
+  rw [lineStep_eq_U hb b true hcode]
   have hst := hI.1
   have key := segLoop_open hb a b st.codeA hcode
-  generalize hr : segLoop box 8 a b st.codeA (Clip.bitCodeOpen box b) = r at key
+  generalize hr : segLoopU box 8 a b st.codeA (Clip.bitCodeOpen box b) = r at key
   cases r with
   | stuck => exact key.elim
   | reject =>
